@@ -180,6 +180,7 @@ type c11Obj struct {
 	ctx    context.Context
 
 	closeErr bool // Close() reports an error (names containing "cerr"); the call is counted all the same
+	listFail bool // ListAt fails with a backend fault (stat listers of names containing "badstat")
 
 	nClose, nTE, nRead, nWrite, nList int
 	ops                               []string
@@ -328,6 +329,9 @@ func (o *c11Obj) listAt(ls []os.FileInfo, off int64) (int, error) {
 	o.fs.calls++
 	o.nList++
 	o.ops = append(o.ops, fmt.Sprintf("L@%x+%x", off, len(ls)))
+	if o.listFail {
+		return 0, errC11Injected // a backend fault inside ListAt (not the end of the listing)
+	}
 	if off < 0 || off >= int64(len(o.infos)) {
 		return 0, io.EOF
 	}
@@ -631,6 +635,7 @@ func (fs *c11FS) filelist(r *sftp.Request, entry string) (sftp.ListerAt, error) 
 		}
 		o := fs.newObj("statlister", r, n)
 		o.infos = []os.FileInfo{c11InfoOf(path.Base(r.Filepath), n)}
+		o.listFail = strings.Contains(r.Filepath, "badstat")
 		return c11Lister{o}, nil
 	case r.Method == "Stat":
 		_, n := fs.resolve(r.Filepath)
@@ -639,6 +644,7 @@ func (fs *c11FS) filelist(r *sftp.Request, entry string) (sftp.ListerAt, error) 
 		}
 		o := fs.newObj("statlister", r, n)
 		o.infos = []os.FileInfo{c11InfoOf(path.Base(r.Filepath), n)}
+		o.listFail = strings.Contains(r.Filepath, "badstat")
 		return c11Lister{o}, nil
 	case r.Method == "Readlink":
 		n, ok := fs.nodes[r.Filepath]
@@ -717,6 +723,7 @@ func (fs *c11FS) populateC11() {
 	fs.put("/cerr.txt", "close of this one fails", 0o644)
 	fs.mkdir("/cerrd")
 	fs.put("/cerrd/x", "x", 0o644)
+	fs.put("/badstat", "the lister handed out for a stat of this one fails inside ListAt", 0o644)
 }
 
 func c11Gen(rng *rand.Rand) []c11Op {
@@ -817,7 +824,7 @@ func c11Gen(rng *rand.Rand) []c11Op {
 			ops = append(ops, c11Op{typ: t, slot: -1, bogus: []string{"999", "", "abc", "next"}[rng.Intn(4)]})
 		case r < 74:
 			t := []byte{fxpStat, fxpLstat, fxpReadlink}[rng.Intn(3)]
-			nm := pick([]string{"a.txt", "d", "lnk", "lnk", "nope", "d/e1"})
+			nm := pick([]string{"a.txt", "d", "lnk", "lnk", "nope", "d/e1", "badstat"})
 			ops = append(ops, c11Op{typ: t, name: nm, slot: -1})
 		default: // an open of some kind
 			k := rng.Intn(100)
